@@ -4,6 +4,7 @@ import (
 	"encoding/json"
 	"fmt"
 	"net/url"
+	"os"
 	"regexp"
 	"strings"
 	"time"
@@ -126,6 +127,9 @@ func (c *ValCase) runImpl() string {
 		return c.ID + " unm=ok res=" + p
 	}
 	if err != nil {
+		if os.Getenv("VERIF_DEBUG_ERR") != "" {
+			fmt.Fprintln(os.Stderr, c.ID, err)
+		}
 		return c.ID + " unm=ok res=err"
 	}
 	var vs strings.Builder
